@@ -793,6 +793,12 @@ def run(U, rep, tier):
   # bounded universe (shared with C01 R1.2)
   from braxlint.props import c01
   c01.scan_spec(U, rep, tier, rule='R6.8')
+  # R6.9: a contact impulse is converted into a velocity change with the SAME effective mass it was sized with (else the
+  # push-out / rebound is over- or under-applied by mass ** -spring_mass_scale): the momentum law of the two-body contact
+  # scene, spring_mass_scale symbolic (shared with C04 R4.1)
+  from braxlint.props.c16 import _Relabel
+  from braxlint.props import c04 as _c04
+  _c04.momentum(U, _Relabel(rep, 'R6.9'), tier, only=('two_body_system',))
   # R6.6: limits whose range does not contain 0 are inert for a system at rest inside them -- the quantity a limit must
   # NOT act on (a slide's rotation angle, a hinge's offset) is 0, outside such a range (shared with C04 R4.5)
   from braxlint.props import c04
